@@ -299,11 +299,13 @@ def timed(fn, seconds):
         raise _Timeout()
 
     old = signal.signal(signal.SIGALRM, handler)
-    signal.setitimer(signal.ITIMER_REAL, seconds)
+    t0 = time.time()
+    outer, _ = signal.setitimer(signal.ITIMER_REAL, seconds)
     try:
         return fn()
     finally:
-        signal.setitimer(signal.ITIMER_REAL, 0)
+        # re-arm an enclosing alarm (the overall watchdog of the check) with what is left of it
+        signal.setitimer(signal.ITIMER_REAL, max(outer - (time.time() - t0), 0.01) if outer > 0 else 0)
         signal.signal(signal.SIGALRM, old)
 
 
